@@ -218,7 +218,7 @@ def run(chk: Check) -> None:
     c01.validate_block_start_spec(chk, 800 * n)       # includes the port escape_word (model) vs markdown_escape_word: code spans and fences at line starts
     docs = [gen_code_doc(rng) for _ in range(200 * n)] + [gen_indented_code_doc(rng) for _ in range(150 * n)] + [gen_span_doc(rng) for _ in range(250 * n)]
     gen_docs.AVOID = set(c02.AVOID_MAIN)
-    docs += [gen_docs.gen_doc(rng) for _ in range(150 * n)]
+    docs += [gen_docs.gen_doc(rng) for _ in range(150 * n)] + gen_docs.systematic_docs()
     gen_docs.AVOID = set()
     docs = [d for d in docs if not d.lstrip().startswith("---")]
     optsets = c02.all_option_sets(rng, len(docs))
